@@ -125,6 +125,7 @@ theorem pProperty_WF {ts : List Tok} {p : RawProperty} {r : List Tok} (h : pProp
   simp only at h
   -- the scope events
   have hs : OptWF act ∧ OptWF term := by
+    unfold pScope at hscope
     cases ts1 with
     | nil => cases hscope
     | cons t rest =>
@@ -156,7 +157,8 @@ theorem pProperty_WF {ts : List Tok} {p : RawProperty} {r : List Tok} (h : pProp
     simp only at h
     split at h
     · cases h
-    · cases ts3 with
+    · unfold pPattern at h
+      cases ts3 with
       | nil => cases h
       | cons t rest =>
         simp only at h
